@@ -10,6 +10,7 @@ def main():
   prop, cfg_json, out = sys.argv[1], sys.argv[2], sys.argv[3]
   from vlib import verdict
   cfg = json.loads(cfg_json)
+  os.environ['VERIF_CFG_NAME'] = '%s/%s' % (prop, cfg.get('name', ''))
   mod = importlib.import_module(verdict.CHECKS[prop])
   res = verdict.Result()
   try:
